@@ -131,6 +131,20 @@ def scanRepeat : Nat → List Nat → St → St × List Nat
     | 44 :: r' => scanRepeat f r' (st.emit (ds ++ [44]))
     | _ => (st.emit ds, r)
 
+/-- regexp.go scanRepeatCount, the test at its start: the text after `{` is digits, optionally `,` and
+    digits, then `}` -/
+def validCount (inp : List Nat) : Bool :=
+  let (d1, r1) := passDigits inp
+  if d1.isEmpty then false else
+  match r1 with
+  | 125 :: _ => true
+  | 44 :: r2 => (passDigits r2).2.head? == some 125
+  | _ => false
+
+/-- regexp.go scanRepeatCount: only a well-formed count is touched -/
+def scanRepeat0 (inp : List Nat) (st : St) : St × List Nat :=
+  if validCount inp then scanRepeat (inp.length + 1) inp st else (st, inp)
+
 /-- `^\x00-\x{10FFFF}]` and `\x00-\x{10FFFF}]` -/
 def fullRange : List Nat := [92, 120, 48, 48, 45, 92, 120, 123, 49, 48, 70, 70, 70, 70, 125, 93]
 
@@ -167,7 +181,7 @@ def loop (idc : Nat → Bool) (top : Bool) : Nat → List Nat → St → St × L
       if top then loop idc true n cs (st.bad.emit [41])            -- Unmatched ')'
       else (st.emit [41], cs)
     else if c = 123 then
-      let (st', rest) := scanRepeat (cs.length + 1) cs (st.emit [123])
+      let (st', rest) := scanRepeat0 cs (st.emit [123])
       loop idc top n rest st'
     else loop idc top n cs (st.emit [c])
 
